@@ -103,6 +103,15 @@ def loop_block(stmts, k: str) -> str:
     raise Refuse(f'line {s.lineno}: statement not accepted in the completion loop: {ast.unparse(s)[:80]}')
 
 
+def fingerprint_deep(node) -> int:
+    """like fingerprint, with the docstrings of nested functions / classes removed as well"""
+    n2 = ast.parse(ast.unparse(node)).body[0]
+    for x in ast.walk(n2):
+        if isinstance(x, (ast.FunctionDef, ast.AsyncFunctionDef, ast.ClassDef)):
+            x.body = nodoc(x.body) or [ast.Pass()]
+    return int(hashlib.sha256(ast.dump(n2, annotate_fields=True, include_attributes=False).encode()).hexdigest()[:15], 16)
+
+
 def fingerprint(fn) -> int:
     fn2 = ast.parse(ast.unparse(fn)).body[0]
     fn2.body = nodoc(fn2.body) or [ast.Pass()]
@@ -253,6 +262,33 @@ def translate(src: Path) -> dict:
     out.append('Definition READER_SEQUENTIAL : bool := true.\n')
     out.append(f'Definition FP_message_reader_loop : N := {fingerprint(rl)}%N.\n')
     out.append(f'Definition FP_perform_message_callback : N := {fingerprint(pc)}%N.\n')
+    # ---- helpers the waiter code relies on (phase 8): regenerated facts + fingerprints
+    ev = ast.parse((base / 'events.py').read_text())
+    bus = find_class(ev, 'EventBus')
+    emit = find_func(bus.body, 'emit')
+    etxt = ast.unparse(emit)
+    # emit awaits coroutine listeners one after the other and swallows their exceptions (so the completion loop after
+    # `await self._event_bus.emit(...)` always runs)
+    tries = [x for x in ast.walk(emit) if isinstance(x, ast.Try)]
+    swallow = (len(tries) == 1 and len(tries[0].handlers) == 1 and ast.unparse(tries[0].handlers[0].type) == 'Exception'
+               and not any(isinstance(y, ast.Raise) for y in ast.walk(ast.Module(body=tries[0].handlers[0].body, type_ignores=[]))))
+    awaits_listener = 'await listener(event)' in etxt and 'create_task' not in etxt
+    for mod, path in (('network', base / 'network' / 'network.py'), ('client', base / 'client.py')):
+        imp = [ast.unparse(x) for x in ast.parse(path.read_text()).body if isinstance(x, ast.ImportFrom) and any(a.asname == 'atimeout' or a.name == 'atimeout' for a in x.names)]
+        if imp != ['from async_timeout import timeout as atimeout']:
+            raise Refuse(f'{mod}: atimeout is bound by {imp}')
+    out.append('\n(* helpers: EventBus.emit awaits coroutine listeners in turn and swallows their exceptions; atimeout = async_timeout.timeout *)\n')
+    out.append(f'Definition EMIT_SWALLOWS_LISTENER_EXCEPTIONS : bool := {b_(swallow)}.\n')
+    out.append(f'Definition EMIT_AWAITS_LISTENERS_IN_TURN : bool := {b_(awaits_listener)}.\n')
+    cm = ast.parse((base / 'commands.py').read_text())
+    helpers = [('EventBus_emit', emit), ('EventBus_register', find_func(bus.body, 'register')),
+               ('EventBus_get_listeners_for_event', find_func(bus.body, '_get_listeners_for_event')),
+               ('build_message_map', find_func(ev.body, 'build_message_map')),
+               ('Network_send_server_messages', find_func(net.body, 'send_server_messages')),
+               ('BaseCommand', find_class(cm, 'BaseCommand')),
+               ('receive_message_object', find_func(dc.body, 'receive_message_object'))]
+    for nm, node in helpers:
+        out.append(f'Definition FPH_{nm} : N := {fingerprint_deep(node)}%N.\n')
     return {'WaiterGen.v': ''.join(out)}
 
 
